@@ -248,7 +248,7 @@ theorem mhinv_observer (cfg : Cfg) (ha : cfg.flagAtomic = true) (ho : cfg.flagOr
       simp [mstep, hc]
     have e2 : mhbStep cfg nobs s l (t + 2) =
         l ++ [(⟨t + 2, s.win, s.ppc == .joined, s.flag⟩,
-               (s.ppc == .joined) || (s.cpc == .done && s.flag == some false))] := by
+               s.cpc == .done && s.flag == some false)] := by
       simp [mhbStep, hc, ha, ho]
     rw [e, e2]
     obtain ⟨same, pub⟩ := h
@@ -257,7 +257,7 @@ theorem mhinv_observer (cfg : Cfg) (ha : cfg.flagAtomic = true) (ho : cfg.flagOr
     rcases List.mem_append.mp hp with hp | hp
     · exact pub p hp
     · have hp' : p = (⟨t + 2, s.win, s.ppc == .joined, s.flag⟩,
-               (s.ppc == .joined) || (s.cpc == .done && s.flag == some false)) := by simpa using hp
+               s.cpc == .done && s.flag == some false) := by simpa using hp
       subst hp'
       have hl := hc.2
       obtain ⟨h1, h2, h3, h4, h5⟩ := hm
